@@ -35,6 +35,8 @@ const KINDS: [&str; 3] = ["blocking", "async", "ws"];
 enum Cmd {
     /// read `k` more whole request frames
     Read(usize),
+    /// read one more request frame if it arrives within the given time (reply: `Frames` with 0 or 1 frame)
+    TryRead(Duration),
     /// read `k` request frames, answering each the moment it is read (tag = the caller's tag)
     Echo(usize),
     /// send each element as one frame (TCP: one write; WebSocket: one binary message)
@@ -155,6 +157,13 @@ async fn server_task(is_ws: bool, listener: tokio::net::TcpListener, mut cmds: t
                 let _ = match err {
                     Some(e) => ev.send(Event::SrvErr(e)),
                     None => ev.send(Event::Frames(out)),
+                };
+            }
+            Cmd::TryRead(d) => {
+                let _ = match tokio::time::timeout(d, conn.read_frame()).await {
+                    Ok(Ok(f)) => ev.send(Event::Frames(vec![f])),
+                    Ok(Err(e)) => ev.send(Event::SrvErr(e)),
+                    Err(_) => ev.send(Event::Frames(Vec::new())),
                 };
             }
             Cmd::Echo(k) => {
@@ -574,7 +583,8 @@ struct BatchCase {
 
 fn run_batch_case(h: &H, out: &mut Out, idx: &str, case: &BatchCase) {
     let kname = KINDS[case.kind];
-    let op = format!("batch {} {} {} {} {}", idx, case.kind, case.n, case.w, case.order.iter().map(|x| x.to_string()).collect::<Vec<_>>().join(","));
+    let rev = case.order == [usize::MAX];
+    let op = format!("batch {} {} {} {} {}", idx, case.kind, case.n, case.w, if rev { "rev".to_string() } else { case.order.iter().map(|x| x.to_string()).collect::<Vec<_>>().join(",") });
     out.begin(&op);
     let mut s = match h.open(case.kind) {
         Ok(s) => s,
@@ -610,20 +620,29 @@ fn run_batch_case(h: &H, out: &mut Out, idx: &str, case: &BatchCase) {
     let mut finish_order: Vec<usize> = Vec::new();
     let mut ids = Vec::new();
     while answered < case.n {
+        // never make the client wait for an answer we are holding: block for a request only when
+        // nothing is held, otherwise take one more only if it is already on its way
         while held.len() < case.w && received < case.n {
-            match s.read(1) {
-                Ok(mut f) => {
+            if held.is_empty() {
+                s.send(Cmd::Read(1));
+            } else {
+                s.send(Cmd::TryRead(Duration::from_millis(30)));
+            }
+            match s.srv() {
+                Ok(Event::Frames(mut f)) if !f.is_empty() => {
                     ids.push(f[0].h.id);
                     held.push(f.remove(0));
                     received += 1;
                 }
+                Ok(Event::Frames(_)) => break,
+                Ok(_) => break,
                 Err(e) => {
                     out.oracle_fail(&format!("mux.{}.batch_requests_missing", kname), &e, &[op.clone()]);
                     return;
                 }
             }
         }
-        let pick = case.order[answered % case.order.len().max(1)] % held.len();
+        let pick = if rev { held.len() - 1 } else { case.order[answered % case.order.len().max(1)] % held.len() };
         let f = held.remove(pick);
         let c = caller_of(&f).unwrap_or(usize::MAX);
         finish_order.push(c);
@@ -839,6 +858,14 @@ fn gen_mux(args: &Args, r: &mut Rng) -> (Vec<MuxCase>, Vec<BatchCase>) {
     let mut batches = Vec::new();
     let nb = if args.thorough() { 150 } else { 8 };
     for kind in 0..3 {
+        // boundary sizes (around the 32/64 wave / worker-pool sizes and a large one), two servers each:
+        // windowed out-of-order, and strictly newest-first within the window (order = [usize::MAX] -> "rev")
+        for n in [1usize, 2, 31, 32, 33, 34, 63, 64, 65, 100] {
+            let w = n.min(4);
+            let order: Vec<usize> = (0..n).map(|_| r.below(4) as usize).collect();
+            batches.push(BatchCase { kind, n, w, order });
+            batches.push(BatchCase { kind, n, w, order: vec![usize::MAX] });
+        }
         for i in 0..nb {
             let n = if i == 0 { 1 } else { r.range(2, if i % 2 == 0 { 12 } else { 40 }) as usize };
             let w = n.min(r.range(1, 4) as usize);
@@ -1405,7 +1432,7 @@ fn main() {
                 }
                 Some("seq") if w.len() >= 5 => run_seq_case(&h, &mut out, &idx, w[2].parse().unwrap(), w[3].parse().unwrap(), w[4].parse().unwrap()),
                 Some("batch") if w.len() >= 6 => {
-                    run_batch_case(&h, &mut out, &idx, &BatchCase { kind: w[2].parse().unwrap(), n: w[3].parse().unwrap(), w: w[4].parse().unwrap(), order: w[5].split(',').filter_map(|x| x.parse().ok()).collect() });
+                    run_batch_case(&h, &mut out, &idx, &BatchCase { kind: w[2].parse().unwrap(), n: w[3].parse().unwrap(), w: w[4].parse().unwrap(), order: if w[5] == "rev" { vec![usize::MAX] } else { w[5].split(',').filter_map(|x| x.parse().ok()).collect() } });
                 }
                 Some("dead") if w.len() >= 9 => {
                     run_dead_case(&h, &mut out, &idx, &DeadCase { kind: w[2].parse().unwrap(), n: w[3].parse().unwrap(), tmo: w[4] == "1", answered: w[5].parse().unwrap(), fault: w[6].into(), when: w[7].into(), cut: w[8].parse().unwrap() });
